@@ -49,9 +49,9 @@ func Check() *core.Check {
 		},
 		Cases: func(tier string) int {
 			if tier == "thorough" {
-				return 160000
+				return 90000
 			}
-			return 6000
+			return 4000
 		},
 		MinConclusive: func(tier string) int { return 500 },
 		NumPinned:     len(pinned),
@@ -63,19 +63,23 @@ func Check() *core.Check {
 // ---- findings / exclusions ----------------------------------------------------------------------------------------------
 
 var (
-	findOnce  sync.Once
-	listed    map[string]bool
-	knownSig  map[string]bool
-	noExclude = os.Getenv("VERIF_NO_EXCLUDE") != ""
+	findOnce   sync.Once
+	listed     map[string]bool
+	listedBase map[string]bool
+	knownSig   map[string]bool
+	noExclude  = os.Getenv("VERIF_NO_EXCLUDE") != ""
 )
 
 func loadFindings() {
 	findOnce.Do(func() {
 		listed = map[string]bool{}
+		listedBase = map[string]bool{}
 		knownSig = map[string]bool{}
 		ff := core.LoadFindings()
 		for _, f := range ff.Findings {
 			listed[f.ID] = true
+			base, _, _ := strings.Cut(f.ID, "/")
+			listedBase[base] = true
 			if f.Property == "C05" {
 				knownSig[f.Signature] = true
 			}
@@ -293,6 +297,9 @@ func (cr *caseRun) checkSingle(it *item) bool {
 	}
 	exp := expectedUnaryPrefix(it.want)
 	for i, e := range exp {
+		if skipUnaryField(cr, i, it.want) {
+			continue
+		}
 		if i >= len(it.u) || it.u[i] != e {
 			g := "<missing>"
 			if i < len(it.u) {
@@ -363,13 +370,18 @@ func (cr *caseRun) checkPair(a, b *item, blame *item) {
 	want := expectedPair(a.want, b.want)
 	if got != want {
 		for i := 0; i < len(want) && i < len(got); i++ {
+			if got[i] != want[i] && skipPairField(cr, i, a.want, b.want) {
+				continue
+			}
 			if got[i] != want[i] {
 				mk("pair:"+pairObsNames[i], fmt.Sprintf("%s gave %c, expected %c (all observables got %s want %s)", pairObsNames[i], got[i], want[i], got, want))
 				return
 			}
 		}
-		mk("pair:length", "battery length "+got)
-		return
+		if len(got) != len(want) {
+			mk("pair:length", "battery length "+got)
+			return
+		}
 	}
 	if !cr.quiet {
 		st.Count("pair_observables_checked", int64(len(want)))
@@ -411,6 +423,21 @@ func (cr *caseRun) checkPair(a, b *item, blame *item) {
 
 func famClass(f string) string { return f }
 
+// opKey names the operator of a node for the evidence counters (data-carrying leaves by kind only).
+func opKey(n *node) string {
+	switch n.Op {
+	case "lit", "str", "json", "wrap":
+		return n.Op
+	case "go":
+		return "go:" + n.Go.Kind
+	case "ta", "dv":
+		return n.Op + ":" + elemTypes[n.A]
+	case "upd", "cmp":
+		return n.Op + ":" + n.Lit + "=@" + storages[n.B]
+	}
+	return n.Op + ":" + n.Lit
+}
+
 // runTrees executes the (a) battery for the given trees. Returns the violations.
 func (cr *caseRun) runTrees(trees []*node) {
 	var refsOf [][]*item
@@ -437,6 +464,9 @@ func (cr *caseRun) runTrees(trees []*node) {
 		refsOf = append(refsOf, rs)
 		var ns []*item
 		for _, w := range neighbours(v) {
+			if excludedValue(w) {
+				continue
+			}
 			rn := refs(w)[cr.c.Rng.Intn(2)]
 			ni := &item{n: rn, role: "nbr", want: w, owner: i}
 			ns = append(ns, ni)
@@ -450,10 +480,10 @@ func (cr *caseRun) runTrees(trees []*node) {
 		okItem[it] = cr.checkSingle(it)
 		if !cr.quiet && it.role == "tree" {
 			cr.st.SetAdd("buckets", fmt.Sprintf("%016x", math.Float64bits(it.want)))
-			cr.st.Inc("root_op:" + it.n.Op + ":" + it.n.Lit)
+			cr.st.Inc("root_op:" + opKey(it.n))
 			it.n.walk(func(k *node) {
 				if k != it.n {
-					cr.st.Inc("inner_op:" + k.Op + ":" + k.Lit)
+					cr.st.Inc("inner_op:" + opKey(k))
 				}
 			})
 			cr.st.Max("tree_depth_max", int64(it.n.depth()))
@@ -670,6 +700,16 @@ func runTreeCase(c *core.Ctx, fixed []*node) core.Result {
 	cr.runTrees(trees)
 	c.Stats.Count("pairs", int64(cr.pairs))
 	c.Stats.Count("trees", int64(len(trees)))
+	for _, nm := range pairObsNames {
+		c.Stats.Count("observable:pair:"+nm, int64(cr.pairs))
+	}
+	for _, nm := range []string{"a.SameAs(b)", "b.SameAs(a)", "a.StrictEquals(b)", "b.StrictEquals(a)", "a.Equals(b)", "b.Equals(a)", "Export() type/value", "ToFloat/ToInteger/String"} {
+		c.Stats.Count("observable:go:"+nm, int64(cr.pairs))
+	}
+	for i, nm := range unaryNames {
+		_ = i
+		c.Stats.Count("observable:single:"+nm, int64(len(cr.items)))
+	}
 	if why := gj.IdleProblem(t.r, false); why != "" {
 		cr.viols = append(cr.viols, violation{monitor: "vm-not-idle", detail: why})
 	}
@@ -693,12 +733,21 @@ func runTreeCase(c *core.Ctx, fixed []*node) core.Result {
 	}
 	var cands []cand
 	seen := map[string]bool{}
+	fixedSrc := map[string]bool{}
+	for _, tr := range fixed {
+		fixedSrc[sigSrc(tr)] = true
+	}
 	for _, v := range cr.viols {
 		if v.blame == nil {
 			cands = append(cands, cand{v: v, sig: "C05|" + v.monitor})
 			continue
 		}
 		s0 := sigSrc(v.blame)
+		if fixed != nil && !fixedSrc[s0] {
+			// a pinned witness is judged on its own tree only; its reference producers are covered by the generated cases
+			c.Stats.Inc("pinned_secondary_violation_ignored")
+			continue
+		}
 		if seen[s0] {
 			continue
 		}
@@ -711,7 +760,10 @@ func runTreeCase(c *core.Ctx, fixed []*node) core.Result {
 				v = *mv
 			}
 		}
-		cands = append(cands, cand{v: v, min: min, sig: "C05|" + sigSrc(min)})
+		cands = append(cands, cand{v: v, min: min, sig: "C05|" + v.monitor + "|" + sigSrc(min)})
+	}
+	if len(cands) == 0 {
+		return res
 	}
 	pick := cands[0]
 	for _, cd := range cands {
@@ -730,6 +782,9 @@ func runTreeCase(c *core.Ctx, fixed []*node) core.Result {
 	res.Signature = pick.sig
 	res.Detail = pick.v.detail
 	rec := caseRec{Kind: "tree", Witness: strings.TrimPrefix(pick.sig, "C05|"), Tree: pick.min, All: all}
+	if pick.min != nil {
+		rec.Witness = sigSrc(pick.min)
+	}
 	if pick.v.other != nil {
 		rec.Against = sigSrc(pick.v.other)
 	}
@@ -842,7 +897,7 @@ func runConvCaseOp(c *core.Ctx, fixed []cinput, onlyOp string) core.Result {
 				ok = op.accept(in, got)
 			}
 			if !ok {
-				viols = append(viols, cviol{monitor: "conversion:" + op.name, sig: "C05|conv|" + op.name + "|" + in.String(), in: in, op: op.name,
+				viols = append(viols, cviol{monitor: "conversion:" + op.name, sig: "C05|conversion|" + op.name + "|" + in.String(), in: in, op: op.name,
 					detail: fmt.Sprintf("%s with x = %s (repr %s): got %s, expected %s (ToNumber(x) = %s)", op.name, in.String(), goja.VerifRepr(xv), showOutcome(got), showOutcome(want), showF(in.num()))})
 			}
 		}
